@@ -180,6 +180,17 @@ func runCase(c *tcase, in inst, sh shape, caseNo int, operand string) (mm *misma
 		return nil, true
 	}
 	n0 := c.N0
+	if operand == "dense" { // only histories with a vector operand differ from the sparse replay
+		has := false
+		for i := range c.H {
+			if len(c.H[i].D) > 0 || c.H[i].A == "vaddv" || c.H[i].A == "vsubv" || c.H[i].A == "vmulv" || c.H[i].A == "set" {
+				has = true
+			}
+		}
+		if !has {
+			return nil, true
+		}
+	}
 	if sh.kind == "matrix" && sh.rows*sh.cols != n0 {
 		return nil, true
 	}
@@ -706,6 +717,17 @@ func oneOp(rng *rand.Rand, c cont, its []iter, e *rev, nmax int) (cont, bool) {
 	case x < 30:
 		if d == 0 {
 			return c, true
+		}
+		if mc, ok := c.(*matCont); ok && mc.rows == mc.cols && rng.Intn(2) == 0 {
+			e.I, e.K, e.X = rng.Intn(mc.rows), rng.Intn(mc.rows), mc.cols
+			if rng.Intn(2) == 0 {
+				e.E = "swaprows"
+				c.swapRows(e.I, e.K)
+			} else {
+				e.E = "swapcols"
+				c.swapCols(e.I, e.K)
+			}
+			break
 		}
 		e.E, e.I, e.K = "swap", pos(), pos()
 		c.swap(e.I, e.K)
